@@ -435,6 +435,58 @@ class Gen:
         return {"family": "REUSE2" if two_sided else "REUSE%d" % side0, "flavour": flavour, "shape": shape, "base": base,
                 "base_side": base_side, "sched": sched, "expect": m.t, "reused": reused}
 
+    def case_remk(self, flavour, shape, side, nops):
+        """REMK(side): folders are removed and made again under the same name within one window (a new object at an old path),
+        some with new content inside, among ordinary operations.  One-sided; exact mirror expected."""
+        rng = self.rng
+        base, m = self.base_tree(side, 0)
+
+        def add(op):
+            assert m.apply(op), op
+            op["obj"] = m.new_obj(op["path"])
+            base.append(op)
+        dirs = []
+        for _ in range(rng.randrange(2, 4)):
+            d = self.names.fresh("b")
+            add({"side": side, "op": "mkdir", "path": d})
+            dirs.append(d)
+            if rng.random() < 0.5:
+                add({"side": side, "op": "create", "path": d + "/" + self.names.fresh("b"), "data": self.contents.fresh(side)})
+        add({"side": side, "op": "create", "path": self.names.fresh("b"), "data": self.contents.fresh(side)})
+        sched = []
+        pfx = "lr"[side]
+
+        def emit(op):
+            if op["op"] in ("create", "mkdir"):
+                assert m.apply(op), op
+                op["obj"] = m.new_obj(op["path"])
+            else:
+                op["obj"] = m.obj.get(op["path"])
+                assert m.apply(op), op
+            sched.append(["U", op])
+            sched.extend(g for g in self.gap(shape) if g != ["Q"])
+        for _ in range(nops):
+            r = rng.random()
+            live = [d for d in dirs if d in m.t]
+            if r < 0.5 and live:
+                d = rng.choice(live)
+                for k in sorted(m.kids(d), reverse=True):
+                    emit({"side": side, "op": "delete" if m.t[k][0] == "file" else "rmdir", "path": k})
+                emit({"side": side, "op": "rmdir", "path": d})
+                emit({"side": side, "op": "mkdir", "path": d})
+                if rng.random() < 0.5:
+                    emit({"side": side, "op": "create", "path": d + "/" + self.names.fresh(pfx), "data": self.contents.fresh(side)})
+            elif r < 0.75:
+                par = rng.choice([""] + live)
+                nm = self.names.fresh(pfx)
+                emit({"side": side, "op": "create", "path": (par + "/" + nm) if par else nm, "data": self.contents.fresh(side)})
+            else:
+                files = m.files()
+                if files:
+                    emit({"side": side, "op": "write", "path": rng.choice(files), "data": self.contents.fresh(side)})
+        return {"family": "REMK%d" % side, "flavour": flavour, "shape": shape, "base": base, "base_side": side, "sched": sched,
+                "expect": m.t}
+
     def case_deepmk(self, flavour, shape, nops):
         """DEEPMK: one side creates a folder two or more levels below a folder D (under an existing, unchanged sub-folder) and
         renames D in the same window; the other side works on entries of its own.  HD by the letter.  Measured on the pinned
